@@ -191,6 +191,16 @@ def discharge(ctx, body, p, ev, kind):
     if kind.startswith("assert:Overflow(Sub)"):
         a, b = ev.mops
         k = const_int(b)
+        if k == 1 and isinstance(strip_refs(a), tuple) and strip_refs(a)[0] == "havoc" and "inlined_from" not in ev.data and body.f["locals"][strip_refs(a)[1]]["ty"] in ("usize", "u64", "u32", "u16", "u8"):
+            # n - 1 where the path has established n != 0 (n == 0 not taken, n != 0 / n > 0 / n >= 1 taken) for an unsigned n
+            a0 = strip_refs(a)
+            for c in conds_before(p, bb):
+                t = c.term
+                if isinstance(t, tuple) and t and t[0] == "binop" and strip_refs(t[2]) == a0 and isinstance(c.fact[1], bool) and c.fact[0] == "eq":
+                    kk = const_int(t[3])
+                    if (t[1] == "Eq" and kk == 0 and c.fact[1] is False) or (t[1] == "Ne" and kk == 0 and c.fact[1] is True) or \
+                            (t[1] == "Gt" and kk == 0 and c.fact[1] is True) or (t[1] == "Ge" and kk == 1 and c.fact[1] is True) or (t[1] == "Lt" and kk == 1 and c.fact[1] is False):
+                        return "G3-checked-nonzero"
         if k is not None and is_call(strip_refs(a), "::len"):
             coll = call_args(strip_refs(a))[0]
             if len_gt(p, bb, coll, k - 1):
